@@ -78,6 +78,13 @@ Theorem C09_wavelet_perfect_reconstruction : forall (R : StarRing) L n (flo fhi 
   forall (x : nat -> R) t, (t < n)%nat -> adj (dwt1 L n flo fhi glo ghi) (fwd (dwt1 L n flo fhi glo ghi) x) t = kmul c (x t).
 Proof. exact dwt1_perfect_reconstruction. Qed.
 Print Assumptions C09_wavelet_perfect_reconstruction.
+(* all levels, orthonormal banks (c = 1): waverec (wavedec x) = x, i.e. W^H W = identity, for every number of levels and every signal length *)
+Theorem C09_wavelet_isometry : forall (R : StarRing) level L n (flo fhi glo ghi : nat -> R), (0 < L)%nat ->
+  pr_cond L flo fhi glo ghi k1 ->
+  forall (x : nat -> R) t, (t < n)%nat ->
+    adj (wavedec_op level L n flo fhi glo ghi) (fwd (wavedec_op level L n flo fhi glo ghi) x) t = x t.
+Proof. exact wavedec_perfect_reconstruction. Qed.
+Print Assumptions C09_wavelet_isometry.
 (* the condition is decidable for concrete filters: the boolean test implies it *)
 Theorem C09_wavelet_pr_test_sound : forall L flo fhi glo ghi c, (0 < L)%nat ->
   pr_cond_b L flo fhi glo ghi c = true -> pr_cond (R:=ZRing) L flo fhi glo ghi c.
